@@ -3,4 +3,8 @@ import OllamaVerif.Model.Bytes
 namespace OllamaVerif.Generated.C17
 /-- (i, bytes of llm.DoneReason(i).String()) as returned by the real method -/
 def reasonTable : List (Nat × OllamaVerif.Bytes) := [(0, [115, 116, 111, 112]), (1, [108, 101, 110, 103, 116, 104]), (2, []), (3, []), (4, []), (5, []), (6, []), (7, [])]
+/-- server.errIncompleteResponse.Error() as evaluated in the tree under test -/
+def incompleteMsg : OllamaVerif.Bytes := [109, 111, 100, 101, 108, 32, 114, 117, 110, 110, 101, 114, 32, 115, 116, 111, 112, 112, 101, 100, 32, 119, 105, 116, 104, 111, 117, 116, 32, 99, 111, 109, 112, 108, 101, 116, 105, 110, 103, 32, 116, 104, 101, 32, 114, 101, 115, 112, 111, 110, 115, 101]
+/-- bufio.ErrTooLong.Error() of the toolchain the tree is built with -/
+def tooLongMsg : OllamaVerif.Bytes := [98, 117, 102, 105, 111, 46, 83, 99, 97, 110, 110, 101, 114, 58, 32, 116, 111, 107, 101, 110, 32, 116, 111, 111, 32, 108, 111, 110, 103]
 end OllamaVerif.Generated.C17
